@@ -3,6 +3,10 @@
 
    CHist: a history of znode events fed to handleUriUpdate starting from an empty snapshot; observed: the content
           of the snapshot published after every event.  The model reads all its snapshots in the FINAL heap.
+   CLoop: the event-delivery layer: bursts of znode events handed to the REAL waitForUriUpdates loop through its channel
+          (a burst = the events that are already waiting in the channel when the loop runs again; the loop consumes
+          the whole burst); observed: the content of the snapshot that is published once each burst is consumed.
+          The model folds [run] over ALL events of all bursts, in order; snapshots are read in the FINAL heap.
    CSel : an announcement map, a prioritized scheme list, the draws handed out by the injected rand.Source (one per
           attempt) and the hosts returned by repeated calls (Go's map order differs from call to call and cannot be
           set): each must be among the results the model can produce under SOME pair of iteration orders
@@ -52,6 +56,7 @@ Definition service_eqb (a b : service) : bool :=
 
 Inductive case :=
 | CHist (zk : bytes) (hist : list zevent) (observed : list umap)
+| CLoop (zk : bytes) (bursts : list (list zevent)) (observed : list umap)
 | CSel (m : umap) (schemes : list bytes) (draws : list Q) (observed : list (option host))
 | CSvc (path : bytes) (hist : list stce) (observed : option service).
 
@@ -68,12 +73,20 @@ Definition hist_out (zk : bytes) (hist : list zevent) : mout :=
       MHist (map (fun w => match read w s with Some c => c_uris c | None => [] end) ws)
   end.
 
+Definition loop_out (zk : bytes) (bursts : list (list zevent)) : mout :=
+  match run_bursts bursts 0%nat (St [Cell zk []] []) with
+  | Panic => MPanic
+  | Done (ws, s) =>
+      MHist (map (fun w => match read w s with Some c => c_uris c | None => [] end) ws)
+  end.
+
 Definition sel_out (m : umap) (schemes : list bytes) (draws : list Q) : mout :=
   MSel (map (option_map fst) (possible schemes (flat m) (fun i => nth i draws 0))).
 
 Definition model_out (c : case) : mout :=
   match c with
   | CHist zk hist _ => hist_out zk hist
+  | CLoop zk bursts _ => loop_out zk bursts
   | CSel m schemes draws _ => sel_out m schemes draws
   | CSvc path hist _ => MSvc (run_service path hist None)
   end.
@@ -81,6 +94,7 @@ Definition model_out (c : case) : mout :=
 Definition check_case (c : case) : bool :=
   match c, model_out c with
   | CHist _ _ obs, MHist snaps => list_eqb umap_eqb snaps obs
+  | CLoop _ _ obs, MHist snaps => list_eqb umap_eqb snaps obs
   | CSel _ _ _ obs, MSel poss => forallb (fun o => existsb (opt_eqb host_eqb o) poss) obs
   | CSvc _ _ obs, MSvc s => opt_eqb service_eqb s obs
   | _, _ => false
